@@ -94,6 +94,9 @@ def one_call(prog, Model, n, t, o, rng, rep, lines, expect, txt):
     if rng.random() < 0.08:
         nm = rng.choice(m.names)
         m[nm][rng.randrange(n)] = rng.choice([np.nan, np.inf])
+    if rng.random() < 0.5:      # the period (and its neighbours) may carry the record of an earlier solve
+        m.status[:] = [rng.choice('.FES-') for _ in range(n)]
+        m.iterations[:] = [rng.choice([-1, 0, 1, 7, 73]) for _ in range(n)]
     log = []
     install(m, log)
     before = snapshot(m)
